@@ -105,6 +105,32 @@ class SegEval:
                 return "map(%s, %s)" % (ast.unparse(inner.elt.func), b)
         return None
 
+    def len_atom(self, base):
+        return atom("LEN[%s]" % base)
+
+    def num(self, node):
+        """scalar expression; len(<point list>) is the canonical length atom of that list"""
+        outer = self
+
+        class T(ast.NodeTransformer):
+            def visit_Call(self, n):
+                if isinstance(n.func, ast.Name) and n.func.id == "len" and len(n.args) == 1:
+                    b = outer.base_key(n.args[0])
+                    if b is not None:
+                        return ast.Name(id="LEN__%d" % outer._len_id(b), ctx=ast.Load())
+                return self.generic_visit(n)
+
+        from .model import fresh
+        tree = T().visit(fresh(node))
+        for b, i in getattr(self, "_lens", {}).items():
+            self.alg.env["LEN__%d" % i] = self.len_atom(b)
+        return self.alg.ev(tree)
+
+    def _len_id(self, base):
+        if not hasattr(self, "_lens"):
+            self._lens = {}
+        return self._lens.setdefault(base, len(self._lens))
+
     def point(self, node):
         """point-like value or None"""
         if isinstance(node, ast.Constant) and node.value is None:
@@ -121,9 +147,12 @@ class SegEval:
             b = self.base_key(node.value)
             if b is not None and not isinstance(node.slice, ast.Slice):
                 try:
-                    return ("elem", b, self.alg.ev(node.slice))
+                    idx = self.num(node.slice)
                 except Uninterpreted:
                     return self.err("index not interpreted: %s" % ast.unparse(node), node)
+                if idx.is_const() and idx.constval() < 0:
+                    idx = self.len_atom(b) + idx  # points[-1] is points[len - 1]
+                return ("elem", b, idx)
         if isinstance(node, ast.Call) and isinstance(node.func, ast.Attribute) and node.func.attr in self.point_calls and len(node.args) == 1:
             try:
                 return ("call", node.func.attr, self.alg.ev(node.args[0]))
@@ -186,6 +215,36 @@ class SegEval:
             l, r = self.seq_value(node.left), self.seq_value(node.right)
             if l is not None and r is not None:
                 return list(l) + list(r)
+        if isinstance(node, (ast.ListComp, ast.GeneratorExp)) and len(node.generators) == 1 and not node.generators[0].ifs \
+                and isinstance(node.elt, ast.Call) and call_name(node.elt) in self.kinds:
+            g = node.generators[0]
+            it = g.iter
+            saved = self._snapshot()
+            try:
+                # for a, b in zip(L, L[1:]) : consecutive pairs (L[i-1], L[i]) for i in [1, len L)
+                if isinstance(it, ast.Call) and call_name(it) == "zip" and len(it.args) == 2 and isinstance(g.target, ast.Tuple) and len(g.target.elts) == 2 \
+                        and all(isinstance(e, ast.Name) for e in g.target.elts):
+                    b0 = self.base_key(it.args[0])
+                    a1 = it.args[1]
+                    if b0 is not None and isinstance(a1, ast.Subscript) and isinstance(a1.slice, ast.Slice) and a1.slice.upper is None and a1.slice.step is None \
+                            and isinstance(a1.slice.lower, ast.Constant) and a1.slice.lower.value == 1 and self.base_key(a1.value) == b0:
+                        idx = atom("#k")
+                        self.vals[g.target.elts[0].id] = ("elem", b0, idx - const(1))
+                        self.vals[g.target.elts[1].id] = ("elem", b0, idx)
+                        item = self.seg(node.elt)
+                        return [Repeat("#k", const(1), self.len_atom(b0), [item])]
+                # for i in range(lo, hi)
+                if isinstance(it, ast.Call) and call_name(it) == "range" and isinstance(g.target, ast.Name) and 1 <= len(it.args) <= 2:
+                    bounds = [self.num(a) for a in it.args]
+                    if len(bounds) == 1:
+                        bounds = [const(0), bounds[0]]
+                    self.alg.env[g.target.id] = atom("#" + g.target.id)
+                    item = self.seg(node.elt)
+                    return [Repeat("#" + g.target.id, bounds[0], bounds[1], [item])]
+            except Uninterpreted:
+                return None
+            finally:
+                self._restore(saved)
         if isinstance(node, (ast.ListComp, ast.GeneratorExp)) and len(node.generators) == 1 and not node.generators[0].ifs:
             g = node.generators[0]
             inner = self.seq_value(g.iter)
@@ -293,6 +352,7 @@ class SegEval:
                 self.err("builder += %s not interpreted" % ast.unparse(s.value)[:60], s)
             if isinstance(cur, list) and isinstance(s.op, ast.Add):
                 add = self.seq_value(s.value)
+                cur = self.vals[s.target.id]
                 if add is not None:
                     cur.extend(add)
                     return
@@ -323,6 +383,7 @@ class SegEval:
                 return
             if isinstance(cur, list) and m == "extend" and len(c.args) == 1:
                 add = self.seq_value(c.args[0])
+                cur = self.vals[c.func.value.id]  # evaluating a comprehension works on a snapshot: fetch the live list again
                 if add is not None:
                     cur.extend(add)
                     return
@@ -346,7 +407,7 @@ class SegEval:
         if not (isinstance(it, ast.Call) and call_name(it) == "range" and isinstance(s.target, ast.Name) and not s.orelse):
             self.err("loop form not interpreted: for %s in %s" % (ast.unparse(s.target), ast.unparse(it)[:60]), s)
         try:
-            bounds = [self.alg.ev(a) for a in it.args]
+            bounds = [self.num(a) for a in it.args]
         except Uninterpreted:
             return self.err("loop bounds not interpreted: %s" % ast.unparse(it), s)
         if len(bounds) == 1:
